@@ -38,7 +38,9 @@ MANIFEST = {
             "sets interval (1000..60000 ms) and offset (<= 60000 ms) and is refused outside and for 0 with the state unchanged; the delayed "
             "address claim is armed, not lost by other answers and sent once by a poll >= 3 ms later. Run level: from any reachable state and "
             "after ANY history of messages/polls/clock advances the next message is answered as above (C09_history_answers) and the "
-            "configuration state equals the in-order fold of the accepted commands over the initial state (C09_history_configuration). "
+            "configuration state equals the in-order fold of the accepted commands over the initial state (C09_history_configuration); an armed "
+            "address claim survives any history that does not re-arm it, is handed to SendMsg at the poll >= 3 ms later and never again until "
+            "re-armed (C09_history_delayed_claim). "
             "Correspondence: the real node behind a mock CAN driver (both timer builds) receives generated fast-packet 126208 messages "
             "(per-field match/mismatch/other-attribute/truncated/repeated/unknown experiments for every field of every handler, all "
             "function codes x dedicated/transmit/unknown/proprietary PGNs x addressed/broadcast/foreign, pair counts 0..255, interval/"
